@@ -32,5 +32,7 @@ class ImportNode(BaseNode):
             node.isource = self.source
             if env.envtype!=EnvType.DOCS:
                 node.value_ref = None  # imported nodes carry their value, injections are not repeated
+            if node.value_raw is None and node.value is not None:
+                node.value_raw = node.raw_value()  # declared nodes carry the value assigned to them later
             nodes_new.append(node)
         return nodes_new
